@@ -475,14 +475,31 @@ func (rs *runState) lease(step int, op core.Op) {
 // nothing the node had already confirmed (and notified) was offered.
 func (x *world) checkResend(label string) {
 	at := labelClass(label)
+	// The still-unconfirmed set is read through the hash index and the
+	// per-transaction lookup, NOT through UnminedTxs: that is the function the
+	// re-broadcast itself uses, and an oracle must not share its failure mode.
 	var unmined []*wire.MsgTx
 	err := walletdb.View(x.w.Database(), func(tx walletdb.ReadTx) error {
-		var err error
-		unmined, err = x.w.TxStore.UnminedTxs(tx.ReadBucket(wtxmgrNS))
-		return err
+		ns := tx.ReadBucket(wtxmgrNS)
+		hs, err := x.w.TxStore.UnminedTxHashes(ns)
+		if err != nil {
+			return err
+		}
+		sort.Slice(hs, func(i, j int) bool { return hs[i].String() < hs[j].String() })
+		for _, h := range hs {
+			d, err := x.w.TxStore.TxDetails(ns, h)
+			if err != nil {
+				return err
+			}
+			if d != nil {
+				m := d.MsgTx
+				unmined = append(unmined, &m)
+			}
+		}
+		return nil
 	})
 	if err != nil {
-		x.fail("query-failed", "UnminedTxs: %v", err)
+		x.fail("query-failed", "unconfirmed set: %v", err)
 		return
 	}
 	pos := map[chainhash.Hash]int{}
@@ -569,12 +586,7 @@ func (x *world) checkResend(label string) {
 // unminedDescendants lists the wallet's unconfirmed transactions that
 // (transitively) spend outputs of tx h.
 func (x *world) unminedDescendants(h chainhash.Hash) []chainhash.Hash {
-	var unmined []*wire.MsgTx
-	_ = walletdb.View(x.w.Database(), func(tx walletdb.ReadTx) error {
-		var err error
-		unmined, err = x.w.TxStore.UnminedTxs(tx.ReadBucket(wtxmgrNS))
-		return err
-	})
+	unmined := x.unminedRaw()
 	in := map[chainhash.Hash]bool{h: true}
 	var out []chainhash.Hash
 	for changed := true; changed; {
@@ -621,4 +633,26 @@ func (rs *runState) sendself(step int, op core.Op) {
 	x.sent = append(x.sent, tx)
 	x.env.Count("probe.self-payment")
 	x.env.Logf("%d sendself tx=%s", step, short(tx.TxHash()))
+}
+
+// unminedRaw reads the wallet's unconfirmed transactions through the hash
+// index and per-transaction lookups (independent of DependencySort).
+func (x *world) unminedRaw() []*wire.MsgTx {
+	var unmined []*wire.MsgTx
+	_ = walletdb.View(x.w.Database(), func(tx walletdb.ReadTx) error {
+		ns := tx.ReadBucket(wtxmgrNS)
+		hs, err := x.w.TxStore.UnminedTxHashes(ns)
+		if err != nil {
+			return err
+		}
+		sort.Slice(hs, func(i, j int) bool { return hs[i].String() < hs[j].String() })
+		for _, h := range hs {
+			if d, err := x.w.TxStore.TxDetails(ns, h); err == nil && d != nil {
+				m := d.MsgTx
+				unmined = append(unmined, &m)
+			}
+		}
+		return nil
+	})
+	return unmined
 }
